@@ -328,110 +328,115 @@ func checkC09(c *Ctx) {
 	r.Rule("C09.3", "hand-off sends are non-blocking selects whose default case counts the drop; fixed worker pool", 2)
 	type hand struct{ pkg, recv, name, counter string }
 	for _, h := range []hand{{"pkg/station/lib", "RegistrationManager", "HandleRegUpdates", "addDroppedMessage"}, {"pkg/station/lib", "ZMQIngester", "RunZMQ", "addDroppedZMQMessage"}} {
-		f := c.fn("C09.3", h.pkg, h.recv, h.name)
-		if f == nil {
+		f0 := c.fn("C09.3", h.pkg, h.recv, h.name)
+		if f0 == nil {
 			continue
 		}
 		nSend := 0
-		eachInstr(f, func(in ssa.Instruction) {
-			switch x := in.(type) {
-			case *ssa.Send:
-				nSend++
-				r.Bad("C09.3", fnName(f)+": blocking send on "+pathOf(x.Chan), in.Pos(), fnName(f),
-					"a bare channel send blocks the receiver when all workers are busy instead of dropping and counting the registration")
-			case *ssa.Select:
-				hasSend := false
-				for _, st := range x.States {
-					if st.Dir == 1 /* types.SendOnly */ {
-						hasSend = true
+		// the hand-off function and the helpers of the package it runs the loop in (called, not started)
+		for _, f := range withChanHelpers(f0) {
+			eachInstr(f, func(in ssa.Instruction) {
+				switch x := in.(type) {
+				case *ssa.Send:
+					nSend++
+					r.Bad("C09.3", fnName(f)+": blocking send on "+pathOf(x.Chan), in.Pos(), fnName(f),
+						"a bare channel send blocks the receiver when all workers are busy instead of dropping and counting the registration")
+				case *ssa.Select:
+					hasSend := false
+					for _, st := range x.States {
+						if st.Dir == 1 /* types.SendOnly */ {
+							hasSend = true
+						}
+					}
+					if !hasSend {
+						return
+					}
+					nSend++
+					if x.Blocking {
+						r.Bad("C09.3", fnName(f)+": select with send but no default", in.Pos(), fnName(f),
+							"the hand-off select has no default case: when the buffer is full the receiver blocks instead of dropping")
+						return
+					}
+					// the default branch (index matches no state) must pass the drop counter before the next iteration / return
+					var trueEdges = map[edge]bool{}
+					for k := range x.States {
+						for e := range edgesEstablishing(f, atomMatcher(Atom{"(" + orderEq(fmt.Sprint(k), pathOf(x)+"#0") + ")", true})) {
+							trueEdges[e] = true
+						}
+					}
+					isCounter := func(in2 ssa.Instruction) bool {
+						if cc, ok := in2.(*ssa.Call); ok {
+							return calleeShort(&cc.Call) == h.counter
+						}
+						return false
+					}
+					isNext := func(in2 ssa.Instruction) bool {
+						if in2 == in {
+							return true
+						}
+						if isReturn(in2) {
+							return true
+						}
+						if u, ok := in2.(*ssa.UnOp); ok && u.Op == token.ARROW {
+							return true
+						}
+						if s2, ok := in2.(*ssa.Select); ok && s2 != x {
+							return true
+						}
+						if cc, ok := in2.(*ssa.Call); ok && strings.HasSuffix(calleeName(&cc.Call), "RecvBytes") {
+							return true
+						}
+						return false
+					}
+					miss, w := reach(f, in, isNext, isCounter, trueEdges)
+					if miss {
+						r.Bad("C09.3", fnName(f)+": default case does not reach "+h.counter, in.Pos(), fnName(f),
+							"a registration dropped because all workers are busy is not counted", r.blockPath(f, w)...)
+					} else {
+						r.OK("C09.3", fnName(f)+": non-blocking hand-off, default -> "+h.counter, in.Pos(), "every default-path from the select passes the counter before the next wait")
 					}
 				}
-				if !hasSend {
-					return
-				}
-				nSend++
-				if x.Blocking {
-					r.Bad("C09.3", fnName(f)+": select with send but no default", in.Pos(), fnName(f),
-						"the hand-off select has no default case: when the buffer is full the receiver blocks instead of dropping")
-					return
-				}
-				// the default branch (index matches no state) must pass the drop counter before the next iteration / return
-				var trueEdges = map[edge]bool{}
-				for k := range x.States {
-					for e := range edgesEstablishing(f, atomMatcher(Atom{"(" + orderEq(fmt.Sprint(k), pathOf(x)+"#0") + ")", true})) {
-						trueEdges[e] = true
-					}
-				}
-				isCounter := func(in2 ssa.Instruction) bool {
-					if cc, ok := in2.(*ssa.Call); ok {
-						return calleeShort(&cc.Call) == h.counter
-					}
-					return false
-				}
-				isNext := func(in2 ssa.Instruction) bool {
-					if in2 == in {
-						return true
-					}
-					if isReturn(in2) {
-						return true
-					}
-					if u, ok := in2.(*ssa.UnOp); ok && u.Op == token.ARROW {
-						return true
-					}
-					if s2, ok := in2.(*ssa.Select); ok && s2 != x {
-						return true
-					}
-					if cc, ok := in2.(*ssa.Call); ok && strings.HasSuffix(calleeName(&cc.Call), "RecvBytes") {
-						return true
-					}
-					return false
-				}
-				miss, w := reach(f, in, isNext, isCounter, trueEdges)
-				if miss {
-					r.Bad("C09.3", fnName(f)+": default case does not reach "+h.counter, in.Pos(), fnName(f),
-						"a registration dropped because all workers are busy is not counted", r.blockPath(f, w)...)
-				} else {
-					r.OK("C09.3", fnName(f)+": non-blocking hand-off, default -> "+h.counter, in.Pos(), "every default-path from the select passes the counter before the next wait")
-				}
-			}
-		})
+			})
+		}
 		if nSend == 0 {
-			r.Unk("C09.3", fnName(f)+": hand-off send", f.Pos(), fnName(f), "no channel send found in the hand-off function")
+			r.Unk("C09.3", fnName(f0)+": hand-off send", f0.Pos(), fnName(f0), "no channel send found in the hand-off function")
 		}
 		// no goroutine per message: no go statement reachable after a channel receive
-		var recvs []ssa.Instruction
-		eachInstr(f, func(in ssa.Instruction) {
-			if _, ok := isChanRecv(in); ok {
-				recvs = append(recvs, in)
-			}
-			if s, ok := in.(*ssa.Select); ok {
-				for _, st := range s.States {
-					if st.Dir == 2 /* RecvOnly */ && !isDoneChan(st.Chan) {
-						recvs = append(recvs, in)
+		for _, f := range withChanHelpers(f0) {
+			var recvs []ssa.Instruction
+			eachInstr(f, func(in ssa.Instruction) {
+				if _, ok := isChanRecv(in); ok {
+					recvs = append(recvs, in)
+				}
+				if s, ok := in.(*ssa.Select); ok {
+					for _, st := range s.States {
+						if st.Dir == 2 /* RecvOnly */ && !isDoneChan(st.Chan) {
+							recvs = append(recvs, in)
+						}
 					}
 				}
-			}
-			if cc, ok := in.(*ssa.Call); ok && strings.HasSuffix(calleeName(&cc.Call), "RecvBytes") {
-				recvs = append(recvs, in)
-			}
-		})
-		perMsg := false
-		eachInstr(f, func(in ssa.Instruction) {
-			g, ok := in.(*ssa.Go)
-			if !ok {
-				return
-			}
-			for _, rc := range recvs {
-				if ok, _ := reach(f, rc, isInstr(g), nil, nil); ok {
-					perMsg = true
-					r.Bad("C09.3", fnName(f)+": go statement per received message", g.Pos(), fnName(f),
-						"a goroutine is started for each message instead of handing off to the fixed worker pool: overload is unbounded")
+				if cc, ok := in.(*ssa.Call); ok && strings.HasSuffix(calleeName(&cc.Call), "RecvBytes") {
+					recvs = append(recvs, in)
+				}
+			})
+			perMsg := false
+			eachInstr(f, func(in ssa.Instruction) {
+				g, ok := in.(*ssa.Go)
+				if !ok {
 					return
 				}
+				for _, rc := range recvs {
+					if ok, _ := reach(f, rc, isInstr(g), nil, nil); ok {
+						perMsg = true
+						r.Bad("C09.3", fnName(f)+": go statement per received message", g.Pos(), fnName(f),
+							"a goroutine is started for each message instead of handing off to the fixed worker pool: overload is unbounded")
+						return
+					}
+				}
+			})
+			if !perMsg {
+				r.OK("C09.3", fnName(f)+": no goroutine is spawned after a message receive", f.Pos(), fmt.Sprintf("%d receive site(s) examined", len(recvs)))
 			}
-		})
-		if !perMsg {
-			r.OK("C09.3", fnName(f)+": no goroutine is spawned after a message receive", f.Pos(), fmt.Sprintf("%d receive site(s) examined", len(recvs)))
 		}
 	}
 
@@ -450,6 +455,47 @@ func checkC09(c *Ctx) {
 				pipeline = append(pipeline, a)
 			}
 		}
+	}
+	{
+		var expanded []*ssa.Function
+		seenP := map[*ssa.Function]bool{}
+		for _, f := range pipeline {
+			for _, g := range withChanHelpers(f) {
+				if !seenP[g] {
+					seenP[g] = true
+					expanded = append(expanded, g)
+				}
+			}
+		}
+		// a pipeline function whose loop moved into a helper has no wait of its own any more: only the expanded set
+		// must contain waits
+		var keep []*ssa.Function
+		for _, g := range expanded {
+			has := false
+			eachInstr(g, func(in ssa.Instruction) {
+				if _, ok := isChanRecv(in); ok {
+					has = true
+				}
+				if s, ok := in.(*ssa.Select); ok && (s.Blocking || len(s.States) > 0) {
+					for _, st := range s.States {
+						if st.Dir == 2 {
+							has = true
+						}
+					}
+					if s.Blocking {
+						has = true
+					}
+				}
+			})
+			isRoot := false
+			for _, f := range pipeline {
+				isRoot = isRoot || f == g
+			}
+			if has || (isRoot && len(withChanHelpers(g)) == 1) {
+				keep = append(keep, g)
+			}
+		}
+		pipeline = keep
 	}
 	for _, f := range pipeline {
 		n := 0
@@ -652,4 +698,45 @@ func selectDesc(s *ssa.Select) string {
 		}
 	}
 	return "[" + strings.Join(parts, ", ") + "]"
+}
+
+// withChanHelpers: f and the same-package functions it calls synchronously (two levels) that contain a channel
+// operation - the loop of a pipeline stage may live in a helper.
+func withChanHelpers(f *ssa.Function) []*ssa.Function {
+	out := []*ssa.Function{f}
+	seen := map[*ssa.Function]bool{f: true}
+	var walk func(g *ssa.Function, d int)
+	walk = func(g *ssa.Function, d int) {
+		if d >= 2 {
+			return
+		}
+		eachInstr(g, func(in ssa.Instruction) {
+			call, ok := in.(*ssa.Call)
+			if !ok {
+				return
+			}
+			h := helperCallee(g, &call.Call)
+			if h == nil || seen[h] {
+				return
+			}
+			seen[h] = true
+			hasChan := false
+			eachInstr(h, func(in2 ssa.Instruction) {
+				switch x := in2.(type) {
+				case *ssa.Send, *ssa.Select:
+					hasChan = true
+				case *ssa.UnOp:
+					if x.Op == token.ARROW {
+						hasChan = true
+					}
+				}
+			})
+			if hasChan {
+				out = append(out, h)
+			}
+			walk(h, d+1)
+		})
+	}
+	walk(f, 0)
+	return out
 }
